@@ -322,7 +322,7 @@ MediaAtoms ==
     Mt(<<"p", "produces:json+xml", "json">>, "op", <<"application/json", "application/xml">>, 1),
     Mt(<<"p", "produces:xml+json+yaml", "json">>, "op", <<"application/xml", "application/json", "application/x-yaml">>, 2),
     Mt(<<"p", "produces:json+xml", "json">>, "doc", <<"application/json", "application/xml">>, 2),
-    Mt(<<"p", "produces:xml", "xml">>, "doc", <<"application/xml">>, 2)}
+    Mt(<<"p", "produces:xml", "xml">>, "doc", <<"application/xml">>, 1)}     \* level 1: met by every response atom of level 1 (inheritance)
 
 MethodAtoms ==
    {Atom("method", "method:" \o m, "method:" \o m, "", m,
